@@ -21,7 +21,7 @@ from typing import Any, TYPE_CHECKING
 import numpy as np
 
 from cirq import protocols
-from cirq._compat import _method_cache_name, cached_method, proper_repr
+from cirq._compat import proper_repr
 from cirq.qis import quantum_state_representation
 from cirq.value import big_endian_int_to_digits, linear_dict, random_state
 
@@ -659,15 +659,6 @@ class CliffordTableau(StabilizerState):
     ) -> list[int]:
         return [self._measure(axis, random_state.parse_random_state(seed)) for axis in axes]
 
-    @cached_method
     def __hash__(self) -> int:
+        # Not cached: the tableau is mutable (apply_x, apply_h, ..., rs/xs/zs setters).
         return hash(self.matrix().tobytes() + self.rs.tobytes())
-
-    def __getstate__(self) -> dict[str, Any]:
-        # clear cached hash value when pickling, see #6674
-        state = self.__dict__
-        hash_attr = _method_cache_name(self.__hash__)
-        if hash_attr in state:
-            state = state.copy()
-            del state[hash_attr]
-        return state
